@@ -387,7 +387,7 @@ func c46BigSpecs(seed uint64) []c46Spec {
 		for _, b := range []int{512, 1 << 10, 2 << 10, 4 << 10, 8 << 10, 16 << 10, 32 << 10, 64 << 10, 128 << 10, 256 << 10} {
 			sp = append(sp, c46Spec{targets: append(at(b, boundaryDeltas...), 0), big: true})
 		}
-		for _, b := range []int{512 << 10, 1 << 20, 2 << 20} {
+		for _, b := range []int{512 << 10, 1 << 20} {
 			sp = append(sp, c46Spec{targets: append(at(b, -5, -2, 0), 0), big: true},
 				c46Spec{targets: append(at(b, -4, -3), 0, b-1, b+1), big: true})
 		}
